@@ -3,6 +3,7 @@
 
   tools/selftest.py                 all seeds and refactors
   tools/selftest.py --prop C11      only those relevant to one property
+  tools/selftest.py --prop C11 --cap 30   a spread sample: at most 30 seeds (the property's own first) and 30 refactors (used by the thorough tier)
   tools/selftest.py -j 8            worker threads (default 6; the fact extraction itself is serialised per configuration)
 Seeds (seeded/<id>/patch.diff): every property listed in meta.json `detected_by` must report a violation again.
 Refactors (selftest/refactors/*.patch): behaviour-preserving edits; every check must stay silent.
@@ -103,6 +104,19 @@ def main():
                 continue
             props = [only]
         cases.append(("refactor", os.path.basename(patch)[:-6], patch, props, None))
+    if "--cap" in sys.argv:
+        # the thorough tier of one property: a deterministic, evenly spread sample of each kind, the seeds of the property itself first
+        cap = int(sys.argv[sys.argv.index("--cap") + 1])
+
+        def spread(lst, n):
+            if len(lst) <= n:
+                return lst
+            step = len(lst) / float(n)
+            return [lst[int(i * step)] for i in range(n)]
+        seeds = [c for c in cases if c[0] == "seed"]
+        own = [c for c in seeds if only and c[1].startswith(only + "-")]
+        other = [c for c in seeds if c not in own]
+        cases = own + spread(other, max(0, cap - len(own))) + [c for c in cases if c[0] == "control"] + spread([c for c in cases if c[0] == "refactor"], cap)
     results, bad = [], 0
     with ThreadPoolExecutor(max_workers=jobs) as ex:
         for lines, res, b in ex.map(lambda c: run_case(*c), cases):
